@@ -57,7 +57,8 @@ func osSegFilesLine(dir string) string {
 	return strings.Join(parts, " ")
 }
 
-func (h *harness) runGolden(root string) {
+func (h *harness) runGolden(root string, seed uint64) {
+	r := &rng{s: seed*0x9e3779b97f4a7c15 + 4242}
 	dirs, _ := filepath.Glob(filepath.Join(root, "g*"))
 	sort.Strings(dirs)
 	for _, g := range dirs {
@@ -140,5 +141,97 @@ func (h *harness) runGolden(root string) {
 			h.stat("golden." + kind)
 			os.RemoveAll(tmp)
 		}
+		h.goldenTorn(g, maxseg, probe, r)
+	}
+}
+
+// goldenTorn: power-failure images of a directory written by the pinned version. The pinned version did
+// not sync a segment before leaving it, so ANY of its segments - not only the newest - can end in a
+// torn or missing tail; the current code must recover such a directory to what a validating reader of
+// the documented format accepts.
+func (h *harness) goldenTorn(g, maxseg string, probe [][]byte, r *rng) {
+	ents, _ := os.ReadDir(filepath.Join(g, "db"))
+	var segs []string
+	for _, e := range ents {
+		if strings.HasSuffix(e.Name(), ".psg") {
+			segs = append(segs, e.Name())
+		}
+	}
+	if len(segs) < 2 {
+		return
+	}
+	seqOf := func(n string) int {
+		var id, seq int
+		fmt.Sscanf(strings.TrimSuffix(n, ".psg"), "%d-%d", &id, &seq)
+		return seq
+	}
+	sort.Slice(segs, func(a, b int) bool { return seqOf(segs[a]) < seqOf(segs[b]) })
+	for v := 0; v < 4; v++ {
+		tmp, _ := os.MkdirTemp("", "goldentorn")
+		dbdir := filepath.Join(tmp, "db")
+		if err := copyDir(filepath.Join(g, "db"), dbdir); err != nil {
+			h.emit("goldenerr %v", err)
+			os.RemoveAll(tmp)
+			continue
+		}
+		target := segs[r.intn(len(segs)-1)] // never the newest
+		if v == 3 {
+			target = segs[len(segs)-1]
+		}
+		data, _ := os.ReadFile(filepath.Join(dbdir, target))
+		var starts []int
+		for off := 512; off+6 <= len(data); {
+			ks := int(data[off]) | int(data[off+1])<<8
+			vs := (int(data[off+2]) | int(data[off+3])<<8 | int(data[off+4])<<16 | int(data[off+5])<<24) & 0x7fffffff
+			sz := 10 + ks + vs
+			if off+sz > len(data) {
+				break
+			}
+			starts = append(starts, off)
+			off += sz
+		}
+		desc := "none"
+		if len(starts) > 0 {
+			s0 := starts[r.intn(len(starts))]
+			switch r.intn(3) {
+			case 0: // file ends inside a record
+				cut := s0 + 1 + r.intn(9)
+				if cut > len(data) {
+					cut = len(data)
+				}
+				data = data[:cut]
+				desc = fmt.Sprintf("cut@%d", cut)
+			case 1: // the tail from a sector boundary on never reached the disk (zeroes)
+				cut := (s0 + 511) / 512 * 512
+				for i := cut; i < len(data); i++ {
+					data[i] = 0
+				}
+				desc = fmt.Sprintf("zeroed@%d", cut)
+			case 2: // damaged record
+				data[s0+6] ^= 0x10
+				desc = fmt.Sprintf("flip@%d", s0+6)
+			}
+		}
+		os.WriteFile(filepath.Join(dbdir, target), data, 0640)
+		os.WriteFile(filepath.Join(dbdir, "lock"), nil, 0640) // the session did not complete Close
+		h.emit("case golden-%s-torn%d", filepath.Base(g), v)
+		h.emit("cfg maxseg=%s fs=os", maxseg)
+		h.emit("tail target=%s kind=%s", target, desc)
+		h.emit("adopt %s", osSegFilesLine(dbdir))
+		o := &pogreb.Options{FileSystem: fs.OS}
+		var ms uint32
+		fmt.Sscan(maxseg, &ms)
+		pogreb.VerifSetThresholds(o, ms, 1<<30, 0.5)
+		db, err := pogreb.Open(dbdir, o)
+		if err != nil {
+			h.emit("open kind=recover res=%s", errStr(err))
+		} else {
+			h.emit("open kind=recover res=ok seed=%d", db.VerifHashSeed())
+			h.emit("rstate %s", observe(db, probe))
+			db.Close()
+		}
+		h.emit("end")
+		h.stat("golden.torn")
+		os.RemoveAll(tmp)
 	}
 }
